@@ -1,45 +1,11 @@
+// kmc is the model-checking harness for sboehler/knut (see /verif/DESIGN.md).
 package main
 
 import (
-	"bytes"
-	"fmt"
 	"os"
 
-	"github.com/sboehler/knut/cmd"
-	_ "github.com/sboehler/knut/cmd/importer/cumulus"
-	"github.com/sboehler/knut/lib/verifrt/vexit"
-	"github.com/sboehler/knut/lib/verifrt/vsched"
+	_ "kmc/checks"
+	"kmc/core"
 )
 
-type ctl struct{}
-
-func (ctl) Choose(k vsched.Kind, n int, p bool, l func() string) int { return 0 }
-
-func main() {
-	c := cmd.CreateCmd("verif")
-	var out, errb bytes.Buffer
-	c.SetOut(&out)
-	c.SetErr(&errb)
-	c.SetArgs(os.Args[1:])
-	vexit.InProcess = true
-	res := vsched.Run(ctl{}, vsched.Options{TraceOps: true}, func() {
-		defer func() {
-			if r := recover(); r != nil {
-				if code, ok := r.(vexit.Code); ok {
-					fmt.Println("exit", code.Status)
-					return
-				}
-				panic(r)
-			}
-		}()
-		if err := c.Execute(); err != nil {
-			fmt.Println("ERR", err)
-		}
-	})
-	fmt.Printf("steps=%d gs=%d deadlock=%v crash=%q leaked=%d\n", res.Steps, res.Goroutines, res.Deadlock, res.Crash, res.Leaked)
-	for _, l := range res.Trace {
-		fmt.Println("  ", l)
-	}
-	fmt.Print(out.String())
-	fmt.Print("STDERR:", errb.String())
-}
+func main() { os.Exit(core.Main(os.Args[1:])) }
